@@ -235,8 +235,27 @@ func latticePoint(name string, g rng) *big.Int {
 	panic("unknown lattice point " + name)
 }
 
+// lastBuf is the allocation the most recent choice vector was carved from: the vector is a sub-slice with spare
+// capacity followed by a canary, as a caller holding a row of a larger choice matrix would pass it.
+var lastBuf []byte
+
+const canaryByte = 0xC3
+
+func canaryIntact(n int) bool {
+	for _, b := range lastBuf[n:] {
+		if b != canaryByte {
+			return false
+		}
+	}
+	return true
+}
+
 func pattern(name string, nbytes int, g rng) []byte {
-	out := make([]byte, nbytes)
+	lastBuf = make([]byte, nbytes+96)
+	for i := nbytes; i < len(lastBuf); i++ {
+		lastBuf[i] = canaryByte
+	}
+	out := lastBuf[:nbytes]
 	switch name {
 	case "zeros":
 	case "ones":
@@ -776,6 +795,13 @@ func (rn *runner) relRunOnce(c Case, run int, sp setupPair, g rng) (ro runOut) {
 	nonce := g.bytes(32)
 	h := ctxHash(nonce)
 	choices := pattern(c.Pat, patternLen(c, run), g)
+	want := append([]byte(nil), choices...)
+	defer func() {
+		// the library must treat the caller's choice vector as read-only and must not write behind it
+		if !canaryIntact(len(want)) || string(choices) != string(want) {
+			ro = runOut{outcome: "wrong", site: "caller-memory", detail: "the OT layer wrote into the caller's choice buffer (or the memory right behind it)"}
+		}
+	}()
 	batch := 8 * len(choices)
 	var err error
 	switch c.Layer {
